@@ -34,7 +34,9 @@ def run(rep):
         raise ToolError("Gen_Session failed: %s" % (g.violated or g.error))
     rep.add_tlc("Gen_Session", g)
     texts_abs = g.info[0]["texts"]
-    texts = [[render.render_line(l, CFG, "lower", salt="%d.%d" % (ti, i)) for i, l in enumerate(t)] for ti, t in enumerate(texts_abs)]
+    # variable names are case-insensitive: every text exists in three letter-case renderings, calls rotate through them
+    texts3 = [[[render.render_line(l, CFG, case, salt="%d.%d" % (ti, i)) for i, l in enumerate(t)] for ti, t in enumerate(texts_abs)] for case in ("lower", "title", "upper")]
+    texts = texts3[0]
     gen = sorted(g.cases, key=lambda c: repr(c["hist"]))
     if len(gen) > 200000:
         gen = random.Random(rep.seed).sample(gen, 200000)
@@ -48,9 +50,9 @@ def run(rep):
         for h in c["hist"]:
             calls_seen.add(h["call"])
             if h["call"] == "execute":
-                steps.append({"op": "execute", "lang": "en", "text": ("\r\n" if gi % 4 == 0 else "\n").join(texts[h["t"] - 1])})
+                steps.append({"op": "execute", "lang": "en", "text": ("\r\n" if gi % 4 == 0 else "\n").join(texts3[(gi + len(steps)) % 3][h["t"] - 1])})
             elif h["call"] == "set_text":
-                steps.append({"op": "set_text", "s": h["s"], "text": "\n".join(texts[h["t"] - 1])})
+                steps.append({"op": "set_text", "s": h["s"], "text": "\n".join(texts3[(gi + len(steps)) % 3][h["t"] - 1])})
             else:
                 steps.append({"op": "execute_session", "s": h["s"]})
         cases.append({"id": "h%d" % gi, "cfg": CFG, "steps": steps})
@@ -193,7 +195,7 @@ def random_histories(rep, nhist):
                         elif r["form"] == "use":
                             kd[nm] = kd.get(tuple(r["toks"][0]["ws"]), "?") if len(r["toks"]) == 1 else "num?"
                     lines.append(l)
-                texts = [render.render_line(l, CFG, "lower", salt="%d.%d.%d" % (hi, k, i)) for i, l in enumerate(lines)]
+                texts = [render.render_line(l, CFG, rng.choice(["lower", "title", "upper"]), salt="%d.%d.%d" % (hi, k, i)) for i, l in enumerate(lines)]
                 steps.append({"op": "set_text", "s": s, "text": "\n".join(texts)})
                 evs.append({"ev": "set_text", "s": s, "lines": lines, "_texts": texts})
                 has_text[s] = True
